@@ -10,6 +10,8 @@ import AriesVerif.C13.Interleave
 #print axioms Interleave.stepLocked_le_one
 #print axioms Interleave.locked_at_most_one
 #print axioms Interleave.unlocked_two_sessions
+#print axioms Interleave.locked_closed_stays_dead
+#print axioms Interleave.unlocked_session_resurrected
 #print axioms Interleave.writeLocked_coherent
 #print axioms Interleave.locked_coherent
 #print axioms Interleave.unlocked_stale_cache
